@@ -1,6 +1,6 @@
 (* C08 at stream level: Stream::count_bits equals the bits the stream's operations write. *)
 From FV Require Import Generated Model.Base Model.Sink Model.Crc Model.Codes Model.Rice Model.Predict
-  Model.Component Model.Flac
+  Model.Component Model.Flac Model.Ctor
   Proofs.SinkArith Proofs.SinkRefine Proofs.OpsLen Proofs.CrcP Proofs.CountBits
   Proofs.BitRead Proofs.BitWrite Proofs.DecodeFrame Proofs.EncodeFrameE2E
   Proofs.StreamBytes Proofs.DecodeStream Proofs.ParseStream.
@@ -86,4 +86,18 @@ Proof.
     rewrite N.mod_add by lia. exact IH. }
   rewrite (frames_ops_len (s_frames s) fos (336 + M) (mapM_F2 _ _ _ Em) Hc HM).
   unfold stream_count_bits. fold M. lia.
+Qed.
+
+(* StreamInfo::new + metadata blocks, no frames *)
+Theorem constructed_stream_count_bits rate ch bps i metas ops :
+  streaminfo_ctor rate ch bps = Ok i -> stream_ops (mkStream i metas []) = Ok ops ->
+  ops_len 0 ops = stream_count_bits (mkStream i metas []).
+Proof.
+  intros E Eo. apply stream_count_bits_correct; [|constructor | exact Eo].
+  unfold streaminfo_ctor in E.
+  destruct (guard (rate <=? 96000)) as [[]| |]; cbn [bind] in E; try discriminate.
+  destruct (guard ((1 <=? ch) && (ch <=? 8))) as [[]| |]; cbn [bind] in E; try discriminate.
+  destruct (guard (bps <=? 255)) as [[]| |]; cbn [bind] in E; try discriminate.
+  cbv zeta in E. destruct (guard (verify_streaminfo _)) as [[]| |]; cbn [bind] in E; try discriminate.
+  inversion E. reflexivity.
 Qed.
